@@ -17,6 +17,7 @@ Only property theorems live here; the proofs are in `GluonModel.Proofs.Determini
 -/
 import GluonModel.Determinism
 import GluonModel.Proofs.Determinism
+import GluonModel.Generated.MacroOrder
 
 namespace GluonModel.Props.C16
 open GluonModel.Determinism
@@ -110,5 +111,57 @@ theorem implicit_name_fixed (h₁ h₂ : List Nat) (rel : Nat) :
 
 example : implicitPos [] 29 = 30 := by decide
 example : implicitPos [25] 34 = 61 := by decide
+
+/-! ### Errors of concurrently running macro expansions are reported in source order -/
+
+/-- vm/src/macros.rs:495-516: whatever order the expansions complete in (any permutation of
+    the futures that were tagged with their source index *before* entering the
+    `FuturesUnordered`), the reported errors are exactly the failures in source order.  Hence the
+    diagnostics do not depend on task scheduling, on which imported module is slower, or on
+    which of them was compiled (memoized) earlier in the same VM. -/
+theorem errors_order_schedule_independent {ε : Type} (results : List (Option ε))
+    (arrived : List (Option ε × Nat)) (h : arrived.Perm (tagTasks results)) :
+    reportErrors arrived = results.filterMap id :=
+  Proofs.reportErrors_of_perm results arrived h
+
+/-- Two schedules agree. -/
+theorem errors_order_deterministic {ε : Type} (results : List (Option ε))
+    (a₁ a₂ : List (Option ε × Nat)) (h₁ : a₁.Perm (tagTasks results)) (h₂ : a₂.Perm (tagTasks results)) :
+    reportErrors a₁ = reportErrors a₂ := by
+  rw [errors_order_schedule_independent results a₁ h₁, errors_order_schedule_independent results a₂ h₂]
+
+/-- Numbering the results after collection (`.collect::<FuturesUnordered<_>>().enumerate()`)
+    makes the later sort a no-op: the report is the completion order. -/
+theorem late_numbering_reports_completion_order {ε : Type} (arrived : List (Option ε)) :
+    reportErrorsLateNumbering arrived = arrived.filterMap id :=
+  Proofs.reportErrorsLateNumbering_eq arrived
+
+/-- … and therefore depends on the schedule: the same two failing expansions, completing in
+    the two possible orders, give two different reports. -/
+theorem late_numbering_schedule_dependent_fails :
+    ¬ ∀ (a₁ a₂ : List (Option Nat)), a₁.Perm a₂ →
+        reportErrorsLateNumbering a₁ = reportErrorsLateNumbering a₂ := by
+  intro h
+  have := h [some 1, some 2] [some 2, some 1] (List.Perm.swap _ _ _)
+  rw [late_numbering_reports_completion_order, late_numbering_reports_completion_order] at this
+  revert this
+  decide
+
+/-- Tie to the source (regenerated from vm/src/macros.rs on every run by
+    `translate/c16_macro_order.py`): the futures are tagged before they are collected, the loop
+    records failures with the tag, a stable sort by tag follows, and the sorted errors are what
+    is appended to `self.errors` — the shape `reportErrors` models. -/
+theorem macro_expansions_tagged_before_collection :
+    (Generated.MacroOrder.tagBeforeCollect && Generated.MacroOrder.loopDestructuresTag
+      && Generated.MacroOrder.pushesWithIndex && Generated.MacroOrder.sortsByIndexStable
+      && Generated.MacroOrder.reportsSorted) = true := by
+  decide
+
+-- non-vacuity: three expansions, the first and the last fail, the last one completes first
+example : [(some "late", 2), (none, 1), (some "early", 0)].Perm
+    (tagTasks [some "early", (none : Option String), some "late"]) := by decide
+example : reportErrors [(some 7, 2), (none, 1), (some 5, 0)] = [5, 7] := by
+  rw [errors_order_schedule_independent [some 5, none, some 7] _ (by decide)]
+  rfl
 
 end GluonModel.Props.C16
